@@ -158,6 +158,8 @@ static bool set_glob_attr(const char *k, const char *v) {
         n = parse_blob(v, &p); if (n < 0) return false;
         free(vp_glob.icon); vp_glob.icon = p; vp_glob.icon_len = (size_t)n; vp_glob.icon_present = 1; return true;
     }
+    if (!strcmp(k, "sendok")) { vp_glob.send_len = !strcmp(v, "len"); return !strcmp(v, "len") || !strcmp(v, "zero"); }
+    if (!strcmp(k, "mtuclobber")) { if (!parse_i64(v, &i) || i < 0 || i > 65535) return false; vp_glob.mtu_clobber = (size_t)i; return true; }
     if (!strcmp(k, "failrc")) { if (!parse_i64(v, &i) || i == 0 || i < -1000 || i > 1000) return false; vp_glob.failrc = (int)i; return true; }
     if (!strcmp(k, "emptyrep")) { vp_glob.empty_block = !strcmp(v, "block"); return !strcmp(v, "block") || !strcmp(v, "null"); }
     if (!strcmp(k, "fname")) {
